@@ -200,3 +200,17 @@ pub fn once_stub<F: FnOnce()>(_s: &std::sync::Once, f: F) {
 /// memory; with this stub reference counts still move exactly, only deallocation (and Drop of the pointee) is skipped.
 /// Obligations that depend on a Drop impl (BreakerBase) opt out with `//@keep-drop`.
 pub fn arc_drop_slow_noop<T: ?Sized, A: std::alloc::Allocator>(_s: &mut std::sync::Arc<T, A>) {}
+
+/// stub for the const fn `String::new`: same value, but built at run time. Dropping the *constant* `String::new()`
+/// makes Kani read a non-zero capacity and report spurious allocator failures (measured in system::can_pass_check).
+pub fn string_new_runtime() -> String {
+    String::with_capacity(0)
+}
+
+/// stub for the private `core::result::unwrap_failed` (the cold path of `Result::unwrap/expect`): still a failed
+/// assertion, but without formatting the error value with `{:?}` (that formatting code dominated several obligations)
+pub fn unwrap_failed_stub(_msg: &str, _error: &dyn std::fmt::Debug) -> ! {
+    kani::assert(false, "called `Result::unwrap()` on an `Err` value");
+    kani::assume(false);
+    loop {}
+}
